@@ -304,17 +304,21 @@ Definition dec_stoken (s : sexp) : option stoken :=
   | _ => None
   end.
 
-(* l1 c1 l2 c2 ... *)
-Fixpoint dec_pos_pairs (fuel : nat) (l : list sexp) : option (list pos) :=
+(* l1 c1 l2 c2 ... ; tail recursive: the list has two entries per node of the tree *)
+Fixpoint dec_pos_pairs_acc (fuel : nat) (l : list sexp) (acc : list pos) : option (list pos) :=
   match l with
-  | [] => Some []
+  | [] => Some (rev' acc)
   | a :: b :: r =>
       match fuel with
       | O => None
-      | S f => opt_bind (dec_pos a b) (fun p => opt_bind (dec_pos_pairs f r) (fun ps => Some (p :: ps)))
+      | S f => match dec_pos a b with
+               | Some p => dec_pos_pairs_acc f r (p :: acc)
+               | None => None
+               end
       end
   | _ => None
   end.
+Definition dec_pos_pairs (fuel : nat) (l : list sexp) : option (list pos) := dec_pos_pairs_acc fuel l [].
 
 (** ** the observation of one run of the real parser on one source text *)
 Record run := mkrun {
@@ -514,6 +518,15 @@ Definition compare_outcome (how : string) (m : option (option sexp * list pos)) 
       end
   end.
 
+(** [src] has at most [n] bytes (stops after [n] steps: sources can be megabytes long) *)
+Fixpoint within_nat (l : bytes) (n : nat) : bool :=
+  match l, n with
+  | [], _ => true
+  | _ :: _, O => false
+  | _ :: t, S m => within_nat t m
+  end.
+Definition within (limit : N) (src : bytes) : bool := within_nat src (N.to_nat limit).
+
 (** default of the case field [fblimit] *)
 Definition from_bytes_limit : N := 1024.
 
@@ -546,7 +559,7 @@ Definition compare_run (e : entry) (limit : N) (rf : run * option tree_facts) : 
       | Some src =>
           (* the extracted scanner model costs about 5 microseconds per byte: texts above the
              limit the harness sets for the tier are compared through their tokens only *)
-          if N.ltb limit (N.of_nat (List.length src)) then None else
+          if negb (within limit src) then None else
           match front_matches src r with
           | None => Some (v_mismatch "front-end-out-of-fuel" [])
           | Some false => Some (v_mismatch "front-end-token-stream" [])
@@ -586,7 +599,7 @@ Definition classes_run (e : entry) (limit : N) (r : run) : list string :=
   (if Nat.leb 1000 n then ["thousand-tokens"] else []) ++
   (match r_tree r, r_posm r with Some _, Some (_ :: _) => ["position-methods-compared"] | _, _ => [] end) ++
   (match r_src r with
-   | Some src => if N.ltb limit (N.of_nat (List.length src)) then ["from-tokens-only"] else ["from-bytes"]
+   | Some src => if negb (within limit src) then ["from-tokens-only"] else ["from-bytes"]
    | None => ["from-tokens-only"]
    end) ++
   (if acc || (negb lexerr && negb (pos_eqb lastp first)) then ["nontrivial"] else []).
